@@ -334,10 +334,14 @@ class C06(Prop):
             return failed("client_frame_count", "%d data frames on the wire for %d sends (%d returned normally); events %s" % (
                 len(dframes), len(order), len(sent_ok), names), labels, nontrivial)
         for n, (f, (_, _, kind, raw, compress)) in enumerate(zip(dframes, order)):
-            want_rsv1 = 1 if (negotiated and compress is not False) else 0
-            if f.rsv1 != want_rsv1:
-                return failed("wrong_rsv1", "client message %d: RSV1=%d, expected %d (negotiated=%s, compress=%r)" % (
-                    n, f.rsv1, want_rsv1, negotiated, compress), labels, nontrivial)
+            # RSV1 is allowed only when the extension was negotiated and compression requested;
+            # a requested-but-uncompressed frame (RSV1 clear, raw payload) is legal per message
+            may_compress = negotiated and compress is not False
+            if f.rsv1 and not may_compress:
+                return failed("wrong_rsv1", "client message %d: RSV1 set although negotiated=%s, compress=%r" % (
+                    n, negotiated, compress), labels, nontrivial)
+            if may_compress and not f.rsv1:
+                labels.add("requested_compression_sent_uncompressed")
             if f.opcode != (wire.TEXT if kind == "text" else wire.BINARY):
                 return failed("wrong_opcode", "client message %d" % n, labels, nontrivial)
             body = f.payload
